@@ -1,6 +1,16 @@
 from excel2pycl.src.cell import Cell
-from excel2pycl.src.exceptions import E2PyclParserException
+from excel2pycl.src.exceptions import E2PyclParserException, E2PyclCellException
 from excel2pycl.src.tokens.regexp_base_token import RegexpBaseToken, KeywordRegexpBaseToken
+
+
+def _worksheet_title(value, in_cell: Cell):
+    """
+    Title of the worksheet a reference points to: the prefix before `!` if there is one, the formula's own worksheet otherwise.
+    """
+    if value[1] and not (value[3] or value[4]):
+        raise E2PyclCellException('A reference has a worksheet prefix with an empty title')
+
+    return value[3] or value[4] or in_cell.title
 
 
 class MatrixOfCellIdentifiersToken(RegexpBaseToken):
@@ -19,8 +29,8 @@ class MatrixOfCellIdentifiersToken(RegexpBaseToken):
     @property
     def matrix(self) -> (Cell, Cell,):
         if self._matrix[0] is None:
-            self._matrix = Cell(title=self.value[3] or self.value[4] or self.in_cell.title, column=self.value[5],
-                                row=self.value[7]), Cell(title=self.value[3] or self.value[4] or self.in_cell.title,
+            self._matrix = Cell(title=_worksheet_title(self.value, self.in_cell), column=self.value[5],
+                                row=self.value[7]), Cell(title=_worksheet_title(self.value, self.in_cell),
                                                          column=self.value[8], row=self.value[10])
         return self._matrix
 
@@ -40,8 +50,8 @@ class CellIdentifierRangeToken(RegexpBaseToken):
     @property
     def range(self) -> (Cell, Cell,):
         if self._range[0] is None:
-            self._range = Cell(title=self.value[3] or self.value[4] or self.in_cell.title, column=self.value[7] or self.value[13],
-                               row=self.value[9] or self.value[15]), Cell(title=self.value[3] or self.value[4] or self.in_cell.title,
+            self._range = Cell(title=_worksheet_title(self.value, self.in_cell), column=self.value[7] or self.value[13],
+                               row=self.value[9] or self.value[15]), Cell(title=_worksheet_title(self.value, self.in_cell),
                                                                           column=self.value[7] or self.value[16],
                                                                           row=self.value[11] or self.value[15])
         return self._range
@@ -62,7 +72,7 @@ class CellIdentifierToken(RegexpBaseToken):
     @property
     def cell(self) -> Cell:
         if self._cell is None:
-            self._cell = Cell(title=self.value[3] or self.value[4] or self.in_cell.title, column=self.value[5],
+            self._cell = Cell(title=_worksheet_title(self.value, self.in_cell), column=self.value[5],
                               row=self.value[6])
         return self._cell
 
